@@ -134,7 +134,7 @@ def classify(prop, violations, findings):
 
 
 def write_replay(prop, v):
-    d = os.path.join(VERIF, "replays", prop)
+    d = os.path.join(os.environ.get("LVF_OUT", VERIF), "replays", prop)
     os.makedirs(d, exist_ok=True)
     name = h(v["witness"]) + ".json"
     path = os.path.join(d, name)
@@ -166,7 +166,7 @@ def write_evidence(prop, level, tier, seed, merged, rule, wall, assumptions, n_v
         "wall_s": round(wall, 2),
         "violations": n_viol,
     }
-    path = os.path.join(VERIF, "evidence", f"{prop}.json")
+    path = os.path.join(os.environ.get("LVF_OUT", VERIF), "evidence", f"{prop}.json")
     os.makedirs(os.path.dirname(path), exist_ok=True)
     text = json.dumps(ev, indent=1, default=repr)
     try:
